@@ -6,13 +6,13 @@ open TfelVerif TfelVerif.Mandel TfelVerif.C23
 set_option linter.unusedVariables false
 variable {K : Type} [Field K] (c c3 : K) (fn : Fns K)
 
-macro "c23_unfold" : tactic =>
+macro "c23_unfold" loc:(Lean.Parser.Tactic.location)? : tactic =>
   `(tactic| simp only [gen_simp, tensv, mandv, dot, act, rowsOf, i3, i4, i5, i6, i9, List.map, plane, dg,
       symm, dE, dC, kirch, lamS, lamSM, lamTr, lamJ, lamAb, lamTau, lamSig, lamP,
       M3.mandel3, M3.mandel2, M3.mandel1, M3.ofMandel, M3.tens3, M3.tens2, M3.tens1,
       M3.ofTens, M3.sym, M3.diag, M3.mul_def, M3.mul, M3.one_def, M3.one, M3.add_def, M3.add, M3.sub_def, M3.sub,
       M3.smul_def, M3.smul, M3.transpose, M3.outer, M3.trace, M3.det, M3.frob, M3.mk.injEq,
-      List.cons.injEq, and_true, true_and])
+      List.cons.injEq, and_true, true_and] $[$loc]?)
 
 theorem N3_det (F : M3 K) : Gen.N3_det_r c c3 fn (tensv F) = F.det := by
   obtain ⟨f00,f01,f02,f10,f11,f12,f20,f21,f22⟩ := F
